@@ -24,7 +24,6 @@ def build():
     defs.append(("get_scans_newest_first", "bool", "true" if m.group(1) else "false"))
     defs.append(("get_cmp_op", "N", "%d%%N" % CMP[m.group(2)]))
     one(r"res\.flatten\(\)$", g, "Versioned::get flatten")
-    defs.append(("get_flattens_marker", "bool", "true"))
 
     # ---- Versioned::update
     u = flat(fn_body(imp, "update"))
@@ -91,7 +90,6 @@ def build():
     defs.append(("update_empty_rrset_is_remove", "bool", "true"))
     nc = impl_body(nd, r"impl NodeChildren\s*\{")
     one(r"^self\.children \.read\(\) \.values\(\) \.for_each\(\|item\| item\.rollback\(version\)\)$", flat(fn_body(nc, "rollback")), "NodeChildren::rollback visits every child, removes none")
-    defs.append(("children_rollback_keeps_nodes", "bool", "true"))
 
     # ---- write.rs: open sets dirty, publish, Drop rolls back
     ws = strip_comments(read("src/zonetree/in_memory/write.rs"))
